@@ -181,6 +181,33 @@ C16_RUN(nohash, c16::nohash_policy, true)
 C16_RUN(vmap, c16::vmap_policy, true)
 C16_RUN(ind, c16::ind_policy, true)
 
+// unresolvable calls under thr_policy: the error record a caller catches is part of the answer
+static std::uint64_t encode_error(const yorel::yomm2::resolution_error& e) {
+    std::uint64_t h = 0x9E3779B97F4A7C15ull * (std::uint64_t)(e.status + 1) + e.arity;
+    for (std::size_t i = 0; i < e.arity && i < yorel::yomm2::resolution_error::max_types; ++i) {
+        h = h * 1099511628211ull + (std::uint64_t)e.types[i];
+    }
+    return h | (1ull << 63);
+}
+static void run_thr(const objects<c16::rel_policy>& k, answers& out) {
+    auto& o = const_cast<objects<c16::rel_policy>&>(k);
+    c16::Animal* all[4] = {&o.a, &o.d, &o.c, &o.b};
+    for (auto* x : all) {
+        try {
+            out.push_back((std::uint64_t)c16_errcall_uni__thr(x));
+        } catch (const yorel::yomm2::resolution_error& e) {
+            out.push_back(encode_error(e));
+        }
+        for (auto* y : all) {
+            try {
+                out.push_back((std::uint64_t)c16_errcall_multi__thr(x, y));
+            } catch (const yorel::yomm2::resolution_error& e) {
+                out.push_back(encode_error(e));
+            }
+        }
+    }
+}
+
 struct world {
     objects<c16::rel_policy> rel;
     objects<c16::dbg_policy> dbg;
@@ -189,7 +216,7 @@ struct world {
     objects<c16::ind_policy> ind;
 };
 
-constexpr int n_shapes = 5;
+constexpr int n_shapes = 6;
 
 static void run_shape(int shape, const world& w, answers& out) {
     out.clear();
@@ -205,6 +232,9 @@ static void run_shape(int shape, const world& w, answers& out) {
         break;
     case 3:
         run_vmap(w.vmap, out);
+        break;
+    case 5:
+        run_thr(w.rel, out);
         break;
     default:
         run_ind(w.ind, out);
@@ -337,6 +367,7 @@ int main(int argc, char** argv) {
     update<c16::nohash_policy>();
     update<c16::vmap_policy>();
     update<c16::ind_policy>();
+    update<c16::thr_policy>();
     update<c16::foreign_policy>();
 
     world w;
@@ -368,7 +399,7 @@ int main(int argc, char** argv) {
             while (!go.load()) {
             }
             for (int it = 0; it < iters; ++it) {
-                int order[n_shapes] = {0, 1, 2, 3, 4};
+                int order[n_shapes] = {0, 1, 2, 3, 4, 5};
                 for (int k = n_shapes - 1; k > 0; --k) {
                     std::swap(order[k], order[rng.next() % (k + 1)]);
                 }
